@@ -21,6 +21,7 @@ type Obj struct {
 	name  string
 	// for data race monitor
 	shared bool
+	dirty  map[int]struct{} // big objects: cells ever written
 }
 
 type Pointer struct {
